@@ -329,13 +329,17 @@ func worker(mode string, seed int64, n int) string {
 }
 
 // canonLeaseFile: the lease records are written in Go map iteration order and carry wall-clock instants
-// (offerexpiry / dhcpexpiry) - sort the records and blank the instants; everything else (client ids, MACs,
+// (offerexpiry / dhcpexpiry), the first line is a hash over all of that - drop it, sort the records and blank the
+// instants; everything else (client ids, MACs,
 // addresses, names, xids) is compared verbatim.
 func canonLeaseFile(text string) string {
 	lines := strings.Split(text, "\n")
 	var head, recs []string
 	i := 0
 	for ; i < len(lines); i++ {
+		if strings.HasPrefix(lines[i], "# sha256: ") {
+			continue // integrity line: a hash over the instants below
+		}
 		head = append(head, lines[i])
 		if strings.HasPrefix(lines[i], "leases:") {
 			i++
